@@ -40,6 +40,17 @@ CLAIMED = {
               "index tuples with exact expected values; each is cross-checked against torch on the dense tensor and replayed into the library "
               "with the debug setting on and off; diagonal() too."),
         design="5/C03"),
+    "C20": dict(
+        engine="E1-denote-replay",
+        technique="TLA+ dense definitions of the utility kernels (LOUtils); TLC-enumerated cases with exact expected values replayed into linear_operator.utils / dsmm",
+        text=("spec/LOUtils.tla defines, on exact integer tensors, general and symmetric Toeplitz matrices / products / entry lookup, the Toeplitz "
+              "quadratic-form derivative, the interpolation matrix W and the products W x / W^T x, the sparse matrix built from indices and values, "
+              "batched sparse-dense products, sparse repetition / conversion, application and inversion of (batched, partial) permutations. "
+              "spec/MC_C20.tla enumerates kernel x size 1..4 x batch-shape pairs (including broadcasting against the right-hand side) x {vector, "
+              "matrix} rhs x variant with the exact expected result; the replay calls the real kernel in float32 and float64 and compares (QR and "
+              "pseudo-inverse relationally; the dsmm gradient against sparse^T @ grad). This found - and the repo now fixes - toeplitz_matmul with a "
+              "vector rhs, sparse_repeat of a dimension > 1 and sparse_getitem destroying its input."),
+        design="5/C20"),
     "C12": dict(
         engine="E3-history-machines",
         technique="TLA+ model of per-object memoize caches over query/derivation/settings histories (key discipline from the live classes), exhaustive TLC histories replayed with per-step cache-validity checks",
